@@ -80,6 +80,49 @@ pub struct RtcAnswer {
     pub sdp: String,
 }
 
+/// Maximum nesting depth of JSON arrays and objects accepted when parsing
+/// messages. Valid messages are at most four levels deep.
+const MAX_JSON_NESTING_DEPTH: usize = 32;
+
+/// Return error if JSON arrays/objects are nested deeper than any valid
+/// message can be
+///
+/// Deserialization is recursive, so deeply nested input (which easily fits
+/// within the message size limit) would otherwise overflow the stack and
+/// abort the whole process.
+pub fn check_json_nesting_depth(bytes: &[u8]) -> anyhow::Result<()> {
+    let mut depth = 0usize;
+    let mut in_string = false;
+    let mut escaped = false;
+
+    for byte in bytes {
+        if in_string {
+            if escaped {
+                escaped = false;
+            } else if *byte == b'\\' {
+                escaped = true;
+            } else if *byte == b'"' {
+                in_string = false;
+            }
+        } else {
+            match byte {
+                b'"' => in_string = true,
+                b'[' | b'{' => {
+                    depth += 1;
+
+                    if depth > MAX_JSON_NESTING_DEPTH {
+                        return Err(anyhow::anyhow!("JSON nesting too deep"));
+                    }
+                }
+                b']' | b'}' => depth = depth.saturating_sub(1),
+                _ => (),
+            }
+        }
+    }
+
+    Ok(())
+}
+
 fn serialize_20_bytes<S>(data: &[u8; 20], serializer: S) -> Result<S::Ok, S::Error>
 where
     S: Serializer,
